@@ -220,20 +220,25 @@ PROPS["C02"] = {
     "modules": ["contracts.ops_smoothers", "contracts.c14", "contracts.rel_smoothers"],
     "contracts": ["hdc/algo/ops/ws2dgu.py::ws2dgu", "hdc/algo/ops/ws2dpgu.py::ws2dpgu",
                   "hdc/algo/ops/ws2dgu.py::ws2dgu@rel", "hdc/algo/ops/ws2dpgu.py::ws2dpgu@rel",
-                  "hdc/algo/ops/ws2dwcv.py::ws2dwcv@rel", "hdc/algo/ops/ws2dwcvp.py::ws2dwcvp@rel"],
+                  "hdc/algo/ops/ws2dwcv.py::ws2dwcv@rel", "hdc/algo/ops/ws2dwcvp.py::ws2dwcvp@rel",
+                  "hdc/algo/ops/ws2d.py::ws2d@rel", "hdc/algo/ops/ws2doptv.py::ws2doptv@rel", "hdc/algo/ops/ws2doptvp.py::ws2doptvp@rel",
+                  "hdc/algo/ops/ws2doptvplc.py::ws2doptvplc@rel"],
     "standin": True,
     "level": "other",
     "trusted": ["z3 5.1 / cvc5 1.0.3", "see C03 for the two fixed-lambda functional contracts",
-                "relational contracts: the core solver ws2d enters as a deterministic function of its in-range inputs (y, lmda, w) (call-site contract ws2d@U; its body is verified functionally under C01, in model R)",
-                "model U: every float operation, np.sum, np.cos, rounding and the int16 cast are uninterpreted deterministic functions; loops without a contract are summarised as deterministic functions of the cells and scalars they read"],
-    "not_proved": ["V-curve variants (ws2doptv, ws2doptvp, ws2doptvplc) and the robust GCV branch: placeholder independence is decided by the bounded stand-in only (the V-curve kernels pass the placeholder to the solver and rely on 0 * placeholder = 0; the robust branch selects cells with a boolean mask whose lockstep similarity the per-statement lemmas do not reach)",
-                   "the clause 'the output at missing cells is the gap-filled value of the fitted curve' is carried by the functional contracts of ws2dgu/ws2dpgu (C03) for the fixed-lambda kernels and bounded elsewhere"],
+                "relational contracts of the zero-filling kernels (ws2dgu, ws2dpgu, ws2dwcv, ws2dwcvp): the core solver enters as a deterministic function of its in-range inputs (y, lmda, w) (call-site contract ws2d@U); relational contracts of the V-curve kernels: as a function of (w*y, lmda, w) (call-site contract ws2d@Uwy), which is what the relational contract ws2d@rel proves about the solver's real body (lockstep over its two loops)",
+                "model U: every float operation, np.sum, np.cos, pow, log, sqrt, rounding and the int16 cast are uninterpreted deterministic functions; IEEE facts used: 0 * finite = 0 (signed zeros identified), 1 * x = x; for the V-curve kernels additionally: finite - nonfinite does not depend on the finite minuend, and (assumption, not an IEEE law) the difference of two finite values does not overflow; int16 cells convert to finite floats",
+                "loops: lockstep with an inferred relational invariant (largest set of modified variables that hold the same value in both runs and are preserved); unary loop invariants named in the sidecar (validity weights are 0/1, envelope weights are w * p or w * (1-p), argmin cursor on the grid) are obligations of each run"],
+    "not_proved": ["robust GCV branch (robust=True): placeholder independence and zero weight through the re-weighting rounds are decided by the bounded stand-in only (the boolean-mask selection r_arr[w_temp != 0] has a data-dependent length whose lockstep similarity the per-statement lemmas do not reach)",
+                   "the clause 'the output at missing cells is the gap-filled value of the fitted curve' is carried by the functional contracts (C03 for the fixed-lambda kernels, C04 / C05 selection contracts: band = rounding of the whole fitted curve) and compared with an exact reference by the stand-in",
+                   "V-curve kernels: NaN / infinite cells are not missing-value encodings there (statement), placeholders are required finite"],
     "assumptions": ["model R for the two functional contracts (0 * placeholder = 0 holds in R, so NaN/inf placeholders are visible only to the relational contracts and the stand-in)",
-                    "relational contracts quantify over two runs with the same missing mask and the same valid values; placeholders, the nodata value itself, NaN and +-inf cells are arbitrary and may differ between the runs"],
-    "level_text": "mixed: (1) relational two-run contracts, discharged for all inputs in the uninterpreted float model U, for ws2dgu, ws2dpgu and the non-robust GCV kernels ws2dwcv, ws2dwcvp: two runs whose inputs have the same missing mask (nodata / NaN / inf) and the same valid values return the same int16 band and the same lambda, bit for bit, and take the same minimum-valid-count branch; (2) functional contracts of ws2dgu / ws2dpgu (C03): result as a function of the validity weights and the products VW[i]*y[i], pass-through below 2 valid cells; (3) the V-curve variants and the robust GCV branch are decided by a bounded stand-in comparing every placeholder encoding of the same series (labelled bounded)",
-    "level_note": "mixed: relational contracts proved for 4 of 8 variants (fixed, asymmetric, GCV, GCV asymmetric; non-robust); V-curve variants and robust mode bounded only",
+                    "relational contracts quantify over two runs with the same missing mask and the same valid values; placeholders, the nodata value itself and (zero-filling kernels) NaN and +-inf cells are arbitrary and may differ between the runs",
+                    "no overflow in y - z at missing cells of the V-curve kernels (extra axiom sub_finite), signed zeros identified"],
+    "level_text": "mixed, mostly deductive: relational two-run contracts, discharged for all inputs in the uninterpreted float model U from the real ASTs of ws2dgu, ws2dpgu, ws2dwcv, ws2dwcvp (non-robust), ws2doptv, ws2doptvp, ws2doptvplc and of the solver ws2d itself: two runs whose inputs have the same missing mask and the same valid values return the same int16 band and the same lambda and take the same minimum-valid-count branch, whatever value marks the missing cells (for the zero-filling kernels also NaN / +-inf, bit for bit; for the V-curve kernels any finite placeholder, signed zeros identified). Functional contracts: pass-through below 2 (5) valid cells with lambda 0 (C03, C04, C05 contracts), result as a function of the validity weights and the products w*y. The robust GCV branch is decided by a bounded stand-in comparing every placeholder encoding of the same series and an independent zero-weight re-statement of the robust scheme (labelled bounded)",
+    "level_note": "relational contracts proved for 7 of the 8 variants x both asymmetric settings (all but robust=True) and for the solver; robust mode bounded only; float model U with the listed IEEE facts and one no-overflow assumption",
     "technique": "contract-based deductive verification (lockstep self-composition in an uninterpreted float model; functional postconditions over validity weights) + bounded run-time check of the relational contract on placeholder pairs",
-    "explanation": "relational obligations are discharged for the kernels whose missing cells are zero-filled before the solver; the remaining variants are compared on bounded placeholder pairs",
+    "explanation": "relational obligations are discharged for every kernel except the robust re-weighting branch, which is compared on bounded placeholder pairs",
 }
 
 PROPS["C04"] = {
